@@ -10,6 +10,7 @@ import (
 	"fmt"
 	"io"
 	"os"
+	"os/exec"
 	"sort"
 	"strings"
 	"time"
@@ -22,6 +23,7 @@ import (
 )
 
 var worker = flag.Bool("vx-worker", false, "internal")
+var transportBin = flag.String("bin-transport", "", "the transport-level harness (c17t), built with transport rewritten for the scheduler")
 var raceBin = flag.String("bin-race", "", "free-running twin built with -race")
 var raceChild = flag.Int("race-runs", 0, "internal: run the scenarios free-running this many times")
 
@@ -343,6 +345,18 @@ func main() {
 			r.EngineError("replay: %v", err)
 			r.Finish()
 		}
+		if c.Scenario == "" && *transportBin != "" {
+			// a schedule of the transport part: replayed by the build it was found on
+			cmd := exec.Command(*transportBin, "-replay", r.ReplayFile, "-tier", r.Tier)
+			cmd.Stdout, cmd.Stderr = os.Stdout, os.Stderr
+			if err := cmd.Run(); err != nil {
+				if ee, ok := err.(*exec.ExitError); ok {
+					os.Exit(ee.ExitCode())
+				}
+				os.Exit(2)
+			}
+			os.Exit(0)
+		}
 		sc := vx.Registry[c.Scenario](c.Arg)
 		sc.Cfg.Trace = true
 		ps, stable, res := vx.Replay(sc, c.Choices)
@@ -408,6 +422,9 @@ func main() {
 	r.Graph(int64(traces), points, execs)
 	r.Set("programs", len(progs))
 	r.Set("bounds", bounds.String())
+	if *transportBin != "" {
+		r.RunChild("transport", *transportBin)
+	}
 	if *raceBin != "" {
 		r.RunChild("race", *raceBin, "-race-runs", map[bool]string{true: "40", false: "8"}[r.Thorough()])
 	}
